@@ -10,7 +10,7 @@ LEAN_MODULES = ['VotelibProofs.Props.C01']
 GEN_MODULES = ['Divisor']
 REQUIRED = ['ha_cap', 'ha_total', 'ha_optimal', 'waiting_iff', 'ha_tie', 'ha_only_voted', 'haResult_cand', 'haResult_tie',
             'd_hondt_ok', 'sainte_lague_ok', 'danish_ok', 'macau_ok', 'imperiali_ok', 'modified_first_ok', 'divisor_values', 'cfgOK_of_divisor', 'ha_strict_separation', 'ha_silent_tie_witness', 'ha_is_the_unique_solution', 'list_machine_refines']
-NAME_MODES = ['str', 'int0', 'empty0', 'person']
+NAME_MODES = ['str', 'int0', 'empty0', 'person', 'tuple']
 REQUIRED_COUNTERS = ['tie_batch', 'cap_binds', 'zero_vote_party', 'prev_nonzero_non_dhondt', 'beyond_2^53',
                      'modified_first_coef', 'multi_batch', 'divisor_values', 'coef_as_decimal', 'coef_as_default', 'coef_as_fraction']
 RULE = ('1-6 parties; votes from tie-forcing small sets, zero-vote parties, and [0,10^30]; n_seats 1..12; the five exact '
